@@ -571,9 +571,12 @@ def corpus():
                                                      [(S('Me_1'), ('b', '+', ('c', S('me_1')), ('k', 1)))]))])
     add('F5', {'DS_1': one(), 'DS_2': ds([('Id_1', I), ('me_1', N)], (1, 100.0), (2, 200.0))},
         [(S('DS_r'), True, ('join', 'inner_join', [(S('DS_1'), None), (S('DS_2'), None)], None, []))])
-    add('F5b', {'DS_1': one(), 'DS_2': ds([('Id_1', I), ('me_1', T)], (1, 'a'), (2, 'b'))},
+    add('F5b', {'DS_1': ds([('Id_1', I), ('me_1', T)], (1, 'a'), (2, 'b')), 'DS_2': ds([('Id_1', I), ('Me_1', N)], (1, 100.0), (2, 200.0))},
         [(S('DS_r'), True, ('join', 'inner_join', [(S('DS_1'), S('d1')), (S('DS_2'), S('d2'))], None,
-                            [('calc', [(S('Me_3'), ('b', '-', ('c', S('Id_1')), ('c', S('Me_1'))))]), ('drop', [S('me_1')])]))])
+                            [('calc', [(S('Me_3'), ('b', '-', ('c', S('Id_1')), ('c', S('Me_1'))))])]))])
+    add('F5c', {'DS_1': ds([('Id_1', I), ('Me_1', N), ('Me_2', N)], (1, 1.0, 5.0), (2, 2.0, 6.0)),
+                'DS_2': ds([('Id_1', I), ('me_1', N)], (1, 100.0), (2, 200.0))},
+        [(S('DS_r'), True, ('join', 'inner_join', [(S('DS_1'), None), (S('DS_2'), None)], None, [('drop', [S('Me_1'), S('me_1')])]))])
     add('F6', {'DS_1': one(), 'DS_2': ds([('Id_1', I), ('Me_2', N)], (1, 100.0), (2, 200.0))},
         [(S('DS_r'), True, ('join', 'inner_join', [(S('DS_1'), S('d1')), (S('DS_2'), S('D1'))], None, []))])
     add('F7', {'DS_1': one()}, [(S('DS_r'), True, ('aggrc', ('ds', S('DS_1')), [(S('ID_1'), 'sum', S('Me_1'))], [S('Id_1')]))])
